@@ -47,7 +47,7 @@ class TermGen:
 
     def __init__(self, num_locs, small_locs=(), fn_locs=None, comp=(), lits=None,
                  ops=None, builtins=("abs", "round", "floor", "ceil", "trunc"),
-                 unary=("-", "+"), allow_eq=False, allow_divmod=False, p_lit=0.3):
+                 unary=("-", "+"), allow_eq=False, allow_divmod=False, p_lit=0.3, comp_one_in=6):
         self.num_locs = list(num_locs)
         self.small_locs = list(small_locs)
         self.fn_locs = dict(fn_locs or {})
@@ -59,11 +59,12 @@ class TermGen:
         self.allow_eq = allow_eq
         self.allow_divmod = allow_divmod
         self.p_lit = p_lit
+        self.comp_one_in = comp_one_in      # a ref leaf is a computed-key access once in this many draws
 
     # -- leaves
     def leaf_ref(self, draw):
         choices = list(self.num_locs)
-        if self.comp and draw(st.integers(0, 5)) == 0:
+        if self.comp and draw(st.integers(0, self.comp_one_in - 1)) == 0:
             c, k = draw(st.sampled_from(self.comp))
             return ["item", c, k]
         return draw(st.sampled_from(choices))
